@@ -506,6 +506,15 @@ class _ExprNorm(ast.NodeTransformer):
         self.generic_visit(node)
         return node
 
+    def visit_BinOp(self, node):
+        self.generic_visit(node)
+        # [] + X == X == X + []   (X a list display or comprehension, or the other operand of such a sum)
+        if isinstance(node.op, ast.Add):
+            for a, b in ((node.left, node.right), (node.right, node.left)):
+                if isinstance(a, ast.List) and not a.elts and isinstance(b, (ast.List, ast.ListComp, ast.BinOp)):
+                    return b
+        return node
+
     def visit_Subscript(self, node):
         self.generic_visit(node)
         # {True: X, False: Y}[K] == X if K else Y   (K evidently boolean)
@@ -1825,8 +1834,9 @@ def canonicalise(tree: ast.Module, ref_funcs: Optional[Set[str]], ref_consts: Op
         for st in cdef.body:
             if isinstance(st, (ast.Assign, ast.AnnAssign)) and st.value is not None:
                 tg = st.targets[0] if isinstance(st, ast.Assign) and len(st.targets) == 1 else (st.target if isinstance(st, ast.AnnAssign) else None)
-                if not (isinstance(tg, ast.Name) and tg.id.isupper() and isinstance(st.value, (ast.Tuple, ast.List)) and st.value.elts and all(isinstance(e, ast.Constant) for e in st.value.elts)):
-                    continue
+                if not (isinstance(tg, ast.Name) and tg.id.isupper() and isinstance(st.value, (ast.Tuple, ast.List)) and st.value.elts and all(
+                        isinstance(e, ast.Constant) or (isinstance(e, (ast.Tuple, ast.List)) and e.elts and all(_row_value(x) and not isinstance(x, ast.Lambda) for x in e.elts)) for e in st.value.elts)):
+                    continue  # (constants, or rows of names / constants: a dispatch table)
                 if sum(1 for n in ast.walk(tree) if isinstance(n, ast.Attribute) and n.attr == tg.id and isinstance(n.ctx, ast.Store)) or sum(1 for n in ast.walk(cdef) if isinstance(n, ast.Name) and n.id == tg.id and isinstance(n.ctx, ast.Store)) != 1:
                     continue
                 for m_ in cdef.body:
